@@ -345,14 +345,14 @@ def acc_history(name, hist):
                             continue
                         if c is fc:
                             identity_failed = True
-                            bad.append((base + "/yielded-context-is-filled-context",
+                            bad.append((base + "/yields-the-stored-context-object-itself",
                                         "%s: value #%d yielded by %s() carries the very context object of filled "
                                         "value #%d %s" % (where, k, method, fi, show(fv))))
                         else:
                             common = set(rc) & set(reach(fc))
                             if common:
                                 identity_failed = True
-                                o = rc[sorted(common)[0]]
+                                o = [rc[i] for i in rc if i in common][0]
                                 bad.append((base + "/yielded-context-shares-nested-object-with-filled-context",
                                             "%s: context of value #%d yielded by %s() shares %r with the context of "
                                             "filled value #%d" % (where, k, method, o, fi)))
@@ -362,14 +362,14 @@ def acc_history(name, hist):
                             continue
                         if c is pc:
                             identity_failed = True
-                            bad.append((base + "/yielded-context-is-earlier-yielded-context",
-                                        "%s: value #%d yielded by %s() carries the very context object yielded at %s"
-                                        % (where, k, method, ptxt)))
+                            bad.append((base + "/yields-the-stored-context-object-itself",
+                                        "%s: value #%d yielded by %s() carries the very context object that was "
+                                        "already yielded at %s" % (where, k, method, ptxt)))
                         else:
                             common = set(rc) & set(reach(pc))
                             if common:
                                 identity_failed = True
-                                o = rc[sorted(common)[0]]
+                                o = [rc[i] for i in rc if i in common][0]
                                 bad.append((base + "/yielded-context-shares-nested-object-with-earlier-yield",
                                             "%s: context of value #%d yielded by %s() shares %r with the context "
                                             "yielded at %s" % (where, k, method, o, ptxt)))
@@ -563,7 +563,7 @@ def _segments(records):
     return segs
 
 
-def _align(got, alone, zipped, fr):
+def _align(got, alone, zipped, fr, script):
     """Pair the records (where, snapshot, final) of a branch inside Split/Zip with those of the branch alone.
     Returns (pairs, text of a structural mismatch or None).
     Split: same records.  Zip stops at the shortest branch and never resumes the generators of the other branches
@@ -585,8 +585,8 @@ def _align(got, alone, zipped, fr):
         a_out = [r for r in a if r[0] == "out"]
         if zipped and fr and requested:
             continue
-        if a_out or g_out:
-            requested = True
+        if n >= 1 and script[n - 1] == "c":
+            requested = True      # a generator that Zip never started or resumed leaves the branch in another state
         if (len(g_out) > len(a_out)) if zipped else (len(g_out) != len(a_out)):
             return pairs, "step %d: %d results, alone %d" % (n, len(g_out), len(a_out))
         pairs.extend(zip(g_out, a_out))
@@ -627,7 +627,7 @@ def split_case(driver, kinds, bufsize, script):
                 continue
         if a_outcome.split(":")[0] != outcome.split(":")[0]:
             continue    # reported once below
-        pairs, mismatch = _align(got, a_log, driver == "zip-fill", fr)
+        pairs, mismatch = _align(got, a_log, driver == "zip-fill", fr, script)
         d = [g[:2] != a[:2] for g, a in pairs]
         if True in d:
             g, a = pairs[d.index(True)]
@@ -660,7 +660,7 @@ def split_case(driver, kinds, bufsize, script):
         for b in range(a + 1, len(js)):
             common = set(reaches[a]) & set(reaches[b])
             if common:
-                o = reaches[a][sorted(common)[0]]
+                o = [reaches[a][i] for i in reaches[a] if i in common][0]
                 bad.append((base + "/branches-share-a-mutable-object",
                             "%s: branches %d and %d both hold the object %r" % (where, a, b, o)))
     return bad
@@ -704,6 +704,17 @@ def body(R):
             bad = acc_history(name, h)
             R.case("F" in h or "E" in h, {"accumulator": name, "history": h})
             _report(R, bad, "replay_acc", [name, h], {"accumulator": name, "history": h})
+    if R.thorough:
+        core = [a[0] for a in ACCS if a[1] not in ("FillCompute", "FillComputeSeq", "FillRequest", "FillRequestSeq",
+                                                   "Split", "Zip")]
+        h6 = ["".join(h) for h in itertools.product("FEBCM", repeat=6) if valid_history("".join(h))]
+        R.scope("accumulators: the %d configurations of the elements themselves (no adapters, Split, Zip)" % len(core),
+                "all %d histories of length exactly 6 over {F,E,B,C,M} that end in an observation" % len(h6), True)
+        for name in core:
+            for h in h6:
+                bad = acc_history(name, h)
+                R.case("F" in h or "E" in h, {"accumulator": name, "history": h})
+                _report(R, bad, "replay_acc", [name, h], {"accumulator": name, "history": h})
     nrand = 6000 if R.thorough else 600
     R.scope("accumulators (same configurations)",
             "%d random histories of length 6..12 over {F,E,B,C,M} (fills weighted 2:1:1, C 3, M 2)" % nrand, False)
